@@ -1,5 +1,13 @@
-"""C10 (continued).  Shared definitions can be imported from the module contracts_C10 (the file contracts/C10.py while it
-is being loaded)."""
+"""C10 (continued): the WRITE DECISION of ModifyInstance - which property values reach the instance store.
+
+Shared definitions can be imported from the module contracts_C10 (the file contracts/C10.py while it is being loaded).
+
+Device.  The decision is stated for ONE ARBITRARY property name: the ghost field self._g_p (any string; a clause about it holds
+for every property name).  Dictionaries known only by reference (NocaseDict) are values: `n in d` / `d[n]` are functions of
+(dictionary, lower-cased n).  A callee that changes the properties of an instance (CIMInstance.update) gives that instance a
+NEW dictionary value (`modifies=['self.properties']`) and says how the new value relates to the old one; the old value stays
+nameable (self._g_before: the properties of the copy as the store handed it out).  Sound as long as the instance whose
+dictionary is replaced shares it with nobody - it is the private copy handed out by the store (named precondition)."""
 from pyvc.contract import Contract, Raises, LoopSpec
 from pyvc.values import *   # noqa
 
@@ -7,3 +15,280 @@ CONTRACTS = []
 REFUTED_ON_THE_UNCHANGED_TREE = []      # not loaded: genuine violations of the property (see the notes of each entry)
 CLASS_SPECS = {}
 LEMMAS = []
+
+K = 'pywbem_mock/_instancewriteprovider.py::InstanceWriteProvider.'
+S = 'pywbem_mock/_inmemoryrepository.py::'
+
+# the class view of the contracts of this file (home view: independent of what C10.py declares for its own contracts)
+HOME = {
+    'CIMInstance': {'properties': Ref('NocaseDict'), 'path': Ref('CIMInstanceName'), 'classname': Str, '__iter__': 'str'},
+    'CIMInstanceName': {'namespace': Str, 'classname': Str},
+    'CIMProperty': {'type': Str, 'value': Opt(Ref('object')), 'name': Str},
+    'NocaseDict': {'__iter__': 'str', '__value__': ('ref', 'CIMProperty')},
+    'CIMClass': {'classname': Str},
+}
+
+# ---------------------------------------------------------------- 1. InstanceWriteProvider.ModifyInstance
+# ghost fields of the provider: _g_p the arbitrary property name; _g_orig / _g_before the copy the store handed out and its
+# properties at that moment; _g_updates counts successful InMemoryObjectStore.update calls (as in C11_prov)
+# _g_n the number of OTHER namespaces an association instance spans (0 unless find_multins_association_ref_namespaces is reached)
+PROV = Obj('InstanceWriteProvider', cimrepository=Obj('InMemoryRepository'), _g_p=Str, _g_updates=Int, _g_n=Int,
+           _g_orig=Ref('CIMInstance'), _g_before=Ref('NocaseDict'))
+P = 'caller_self._g_p'
+REQ = 'caller_modified_instance.properties'
+NOWRITE = ('no-store-was-written-when-the-call-raises', 'self._g_updates == old(self._g_updates)')
+
+get_istore = Contract(S + 'InMemoryRepository.get_instance_store', returns=Obj('InMemoryObjectStore'), trusted=True,
+                      notes='the instance store of the namespace (dictionary lookup; the namespace exists)')
+get_cstore = Contract(S + 'InMemoryRepository.get_class_store', returns=Obj('InMemoryObjectStore'), trusted=True,
+                      notes='the class store of the namespace (dictionary lookup; the namespace exists)')
+# get(): one contract for both uses in the function - instance_store.get(path) [copy=True, the instance to be updated] and
+# class_store.get(classname, copy=False) [the creation class: only handed to is_association(), a stub]
+store_get = Contract(
+    S + 'InMemoryObjectStore.get', returns=Ref('CIMInstance'),
+    modifies=['caller_self._g_orig', 'caller_self._g_before'],
+    ensures=[('handed-out-copy-is-isolated', 'implies(copy, fresh(result))'),
+             ('stored-under-its-own-path', 'implies(not isinstance(name, str), result.path == name)'),
+             ('ghost-the-copy-handed-out-and-its-properties-at-that-moment',
+              'implies(copy, caller_self._g_orig is result and caller_self._g_before is result.properties)'),
+             ('ghost-a-read-without-copy-is-not-recorded',
+              'implies(not copy, caller_self._g_orig is old(caller_self._g_orig) and '
+              'caller_self._g_before is old(caller_self._g_before))')],
+    raises={'KeyError': Raises()},
+    notes='first clause proved above in C10 (get); second is the repository invariant (an instance is stored under its path); '
+          'the ghost clauses only name the result')
+is_assoc = Contract(K + 'is_association', returns=Bool, trusted=True,
+                    notes='value of the Association qualifier of the class (no repository access)')
+validate_endpoint = Contract(K + 'validate_reference_property_endpoint_exists',
+                             raises={'CIMError': Raises(post=[('code', 'exc.status_code == CIM_ERR_INVALID_PARAMETER')])},
+                             notes='reads the instance stores only; proved under C11 (C11_prov.py)')
+find_ns = Contract(K + 'find_multins_association_ref_namespaces', returns=ListOf('str'), trusted=True,
+                   modifies=['self._g_n'], ensures=[('ghost-the-number-of-other-namespaces', 'self._g_n == len(result)')],
+                   raises={'CIMError': Raises(post=[('code', 'exc.status_code == CIM_ERR_INVALID_CLASS')])},
+                   notes='reads class and instance store only (see C11_prov.py)')
+
+# The merge.  CIMInstance.update(*args, **kwargs) does `self[key] = value` for every item of every mapping in args: the
+# CIMProperty OBJECT of the mapping is stored under its name (_cim_property_value returns the object it is given), whatever
+# its value - NULL included.  Stated for the arbitrary name P; everything else of the instance is in the frame.
+# (Not modelled: the deprecated propagation of a CHANGED key property value into self.path.keybindings - the dispatcher
+# refuses changed key values, clause 'a-key-property-with-a-changed-value-is-refused' below.)
+MERGE_SRC = REQ      # = args[0] by the second precondition (named through the request so that the clauses stay evaluable)
+inst_update = Contract(
+    'pywbem/_cim_obj.py::CIMInstance.update', trusted=True,
+    requires=[('the-receiver-of-the-merge-is-the-private-copy-handed-out-by-the-store',
+               'fresh(self) and self is caller_self._g_orig and self.properties is caller_self._g_before'),
+              ('one-mapping-is-handed-to-the-merge', 'len(args) == 1 and len(kwargs) == 0'),
+              # identity, not content: evaluable whatever is handed over (a list of pairs, a generator, another dictionary);
+              # a rewrite that hands over an equal COPY of the dictionary would be reported too (stricter than the property)
+              ('every-property-of-the-request-is-handed-to-the-merge-NULL-included-the-dictionary-itself-not-a-selection',
+               f'args[0] is {REQ}')],
+    modifies=['self.properties'],
+    ensures=[('a-property-of-the-mapping-replaces-or-adds-whatever-its-value',
+              f'implies({P} in {MERGE_SRC}, {P} in self.properties and self.properties[{P}] is {MERGE_SRC}[{P}])'),
+             ('a-property-not-in-the-mapping-stays-as-it-was',
+              f'implies({P} not in {MERGE_SRC}, ({P} in self.properties) == ({P} in old(self.properties)) and '
+              f'self.properties[{P}] is old(self.properties)[{P}])')],
+    notes='A-CIMOBJ: CIMInstance.update() = for every (key, value) of the mapping: self.properties[key] = value (the CIMProperty '
+          'object itself); path, classname and qualifiers of the receiver are not assigned')
+
+# items() of the request's properties is not called by the function as it stands; the stub only lets the engine READ a variant
+# of the function that builds a selection of the items (so that such a variant is judged by the preconditions of the merge)
+items_stub = Contract('external::NocaseDict.items', sig=['self'], returns=ListOf(('tuple', 'str', ('ref', 'CIMProperty'))),
+                      trusted=True, notes='items() of a NocaseDict the function does not modify: a list of (name, property) pairs')
+
+# What reaches a write sink (the final instance_store.update, or modify_multi_namespace_instance for an association that
+# spans namespaces) - the same three clauses for both sinks, `inst` being the instance handed over
+def written(inst):
+    return [
+        ('the-instance-written-is-the-private-copy-handed-out-by-the-store',
+         f'fresh({inst}) and {inst} is caller_self._g_orig'),
+        ('every-property-of-the-request-is-written-NULL-included',
+         f'implies({P} in {REQ}, {P} in {inst}.properties and {inst}.properties[{P}] is {REQ}[{P}])'),
+        ('a-property-the-request-does-not-name-is-written-as-it-was-stored',
+         f'implies({P} not in {REQ}, ({P} in {inst}.properties) == ({P} in caller_self._g_before) and '
+         f'{inst}.properties[{P}] is caller_self._g_before[{P}])')]
+
+
+store_update = Contract(
+    S + 'InMemoryObjectStore.update',
+    requires=written('cim_object') + [
+        ('written-under-the-path-of-the-stored-instance',
+         'name is cim_object.path and name == caller_modified_instance.path')],
+    modifies=['caller_self._g_updates'],
+    ensures=[('one-update-counted', 'caller_self._g_updates == old(caller_self._g_updates) + 1')],
+    raises={'KeyError': Raises(post=[('refused-update-changes-nothing', 'caller_self._g_updates == old(caller_self._g_updates)')])},
+    notes='proved above in C10 (update: replaced exactly this name by a deep copy of cim_object / KeyError exactly when absent, '
+          'store unchanged); the counter is a ghost')
+modify_multi = Contract(
+    K + 'modify_multi_namespace_instance',
+    requires=written('modified_instance'),
+    modifies=['self._g_updates'],
+    ensures=[('one-update-per-namespace', 'self._g_updates == old(self._g_updates) + len(assoc_namespaces) + 1')],
+    raises={'CIMError': Raises(post=[('nothing-updated', 'self._g_updates == old(self._g_updates)'),
+                                     ('code', 'exc.status_code in (CIM_ERR_INVALID_CLASS, CIM_ERR_NOT_FOUND)')])},
+    notes='proved under C11 (C11_prov.py): every check before the first write, one update per namespace of a copy of the '
+          'instance it is given')
+
+CONTRACTS.append(Contract(
+    K + 'ModifyInstance',
+    params={'self': PROV, 'modified_instance': Ref('CIMInstance'), 'IncludeQualifiers': Opt(Bool)},
+    callees={'get_instance_store': get_istore, 'get_class_store': get_cstore, 'InMemoryObjectStore.get': store_get,
+             'CIMInstance.update': inst_update, 'InMemoryObjectStore.update': store_update,
+             'is_association': is_assoc, 'validate_reference_property_endpoint_exists': validate_endpoint, 'items': items_stub,
+             'find_multins_association_ref_namespaces': find_ns, 'modify_multi_namespace_instance': modify_multi},
+    loops={1: LoopSpec(target='pn', types={'pn': Str, 'prop': Ref('CIMProperty')})},
+    requires=['self._g_n == 0'],
+    ensures=[('exactly-one-update-per-involved-namespace', 'self._g_updates == old(self._g_updates) + 1 + self._g_n'),
+             ('the-callers-request-object-keeps-its-properties',
+              'modified_instance.properties is old(modified_instance.properties)')],
+    raises={'CIMError': Raises(post=[NOWRITE,
+                                     ('documented-status-codes', 'exc.status_code in (CIM_ERR_INVALID_PARAMETER, '
+                                      'CIM_ERR_INVALID_CLASS, CIM_ERR_NOT_FOUND)')]),
+            # KeyError: the instance is not in the store (excluded by the dispatcher: NOT_FOUND, below) or the known finding
+            # known:modify-assoc-reference-not-yet-set-raises-KeyError (original_instance[pn]); either way nothing is written
+            'KeyError': Raises(post=[NOWRITE])},
+    notes='write decision: the arguments of the write sinks, by named callee preconditions; no-write-on-error by ghost counter '
+          '(the private-copy argument of C11 is contracts/C11.py, not repeated here)',
+))
+for _c in CONTRACTS:
+    _c.home_class_specs = HOME
+
+# ---------------------------------------------------------------- 2. ProviderDispatcher.ModifyInstance
+# WHICH properties of the caller's ModifiedInstance reach the provider, and the status codes decided before the provider is
+# called.  Model limits (stated, not hidden): PropertyList is None or a list of strings (a single str / a tuple is outside the
+# model); the NocaseDict() `property_dict` built by the function is an insertion-ordered dict of the names AS GIVEN - names
+# differing only in lexical case are outside the deductive model (the bounded stand-in sweeps lexical case); the creation
+# class is a reference of sort CIMInstance (one callee contract per callee name: get() serves both stores) of which only
+# .properties is read.
+PD = 'pywbem_mock/_providerdispatcher.py::ProviderDispatcher.'
+HOME_D = dict(HOME)
+HOME_D['CIMProperty'] = dict(HOME['CIMProperty'], qualifiers=Ref('NocaseDict'))
+CSTORE = Obj('InMemoryObjectStore', _data=MapOf('str', ('ref', 'CIMClass')))
+ISTORE = Obj('InMemoryObjectStore', _data=MapOf('absval', ('ref', 'CIMInstance')))
+DISPATCHER = Obj('ProviderDispatcher', cimrepository=Obj('InMemoryRepository'), provider_registry=Ref('ProviderRegistry'),
+                 default_instance_write_provider=Ref('InstanceWriteProvider'), _g_provider_called=Bool)
+d_validate_ns = Contract('pywbem_mock/_baseprovider.py::BaseProvider.validate_namespace', trusted=True,
+                         raises={'CIMError': Raises(post=[('code', 'exc.status_code == CIM_ERR_INVALID_NAMESPACE')])},
+                         notes='the namespace exists or CIM_ERR_INVALID_NAMESPACE (a dictionary lookup in the repository)')
+d_get_cstore = Contract(S + 'InMemoryRepository.get_class_store', returns_ghost='g_cstore', trusted=True)
+d_get_istore = Contract(S + 'InMemoryRepository.get_instance_store', returns_ghost='g_istore', trusted=True)
+d_store_get = Contract(S + 'InMemoryObjectStore.get', returns=Ref('CIMInstance'),
+                       ensures=[('present', 'name in self._data')],
+                       raises={'KeyError': Raises(post=[('only-when-absent', 'name not in self._data')])},
+                       notes='proved above in C10 (get)')
+d_validate_prop = Contract(PD + '_validate_property', trusted=False,
+                           raises={'CIMError': Raises(post=[('code', 'exc.status_code == CIM_ERR_INVALID_PARAMETER')])},
+                           notes='proved above in C10 (_validate_property: declared in the creation class with the declared type and '
+                                 'array-ness, whatever the value; every rejection is CIM_ERR_INVALID_PARAMETER)')
+d_registered = Contract('pywbem_mock/_providerregistry.py::ProviderRegistry.get_registered_provider',
+                        returns=Opt(Ref('InstanceWriteProvider')), trusted=True)
+d_key_qual = Contract('external::NocaseDict.get', sig=['self', 'key', 'default=None'], returns=Bool, trusted=True,
+                      ensures=[('truth-value-of-get-with-default-False', 'result == (key in self)')],
+                      notes='qualifiers.get("key", False) is modelled by its TRUTH VALUE: a CIMQualifier object (truthy whatever its '
+                            'value) when the qualifier is present, else the default False')
+PRIVATE = 'private(self) and self is not caller_ModifiedInstance'
+NAMED = 'exists(lambda j: caller_PropertyList[j] == key, 0, len(caller_PropertyList))'
+d_setitem = Contract(
+    'pywbem/_cim_obj.py::CIMInstance.__setitem__', trusted=True,
+    requires=[('a-class-default-is-added-to-the-private-copy-never-to-the-callers-instance', PRIVATE),
+              ('a-class-default-is-added-only-for-a-name-of-PropertyList-that-the-request-lacks',
+               f'caller_PropertyList is not None and {NAMED} and key not in self.properties')],
+    modifies=['self.properties'],
+    raises={'ValueError': Raises(post=[('only-for-a-NULL-value-without-type', 'value is None')])},
+    notes='A-CIMOBJ: self.properties[key] = CIMProperty(key, value); ValueError: CIMProperty(key, None) cannot infer a type')
+d_delitem = Contract(
+    'pywbem/_cim_obj.py::CIMInstance.__delitem__', trusted=True,
+    requires=[('a-property-is-dropped-from-the-private-copy-never-from-the-callers-instance', PRIVATE),
+              ('a-property-is-dropped-only-when-PropertyList-is-given-and-does-not-name-it',
+               f'caller_PropertyList is not None and not {NAMED}')],
+    modifies=['self.properties'],
+    notes='A-CIMOBJ: del self.properties[key]')
+d_prov_modify = Contract(
+    K + 'ModifyInstance', trusted=False,
+    requires=[('the-provider-gets-a-private-copy-not-the-callers-object',
+               'private(modified_instance) and modified_instance is not caller_ModifiedInstance'),
+              ('IncludeQualifiers-is-handed-on', 'IncludeQualifiers == caller_IncludeQualifiers')],
+    modifies=['caller_self._g_provider_called'],
+    ensures=[('ghost-provider-reached', 'caller_self._g_provider_called')],
+    raises={'CIMError': Raises(post=[('ghost-provider-reached', 'caller_self._g_provider_called')])},
+    notes='the (default or registered) provider; the default provider is under contract above (write decision) and in C11')
+# (tried: the caller's instance as an object with fields instead of a bare reference, so that `pn in modified_instance` runs the
+# real __contains__ - then `list(modified_instance)` is the limit, and fresh() of such an object is not evaluable in a callee
+# precondition; the reference form is kept)
+INCONS = 'ModifiedInstance.classname.lower() != ModifiedInstance.path.classname.lower()'
+MCLS_OK = 'ModifiedInstance.classname in g_cstore._data'
+MINST_OK = 'ModifiedInstance.path in g_istore._data'
+_NOT_REACHED = 'not self._g_provider_called'
+MODIFY_D = dict(
+    params={'self': DISPATCHER, 'ModifiedInstance': Ref('CIMInstance'), 'IncludeQualifiers': Opt(Bool),
+            'PropertyList': Opt(ListOf('str'))},
+    requires=['not self._g_provider_called'],
+    ghosts={'g_cstore': CSTORE, 'g_istore': ISTORE},
+    ghost_init={'g_req': 'ModifiedInstance.properties'},
+    kinds={'property_list': 'str', 'property_dict': ('str', 'bool', True)},
+    callees={'validate_namespace': d_validate_ns, 'get_class_store': d_get_cstore, 'get_instance_store': d_get_istore,
+             'InMemoryObjectStore.get': d_store_get, '_validate_property': d_validate_prop, 'get': d_key_qual,
+             'get_registered_provider': d_registered, 'ModifyInstance': d_prov_modify,
+             'CIMInstance.__setitem__': d_setitem, 'CIMInstance.__delitem__': d_delitem},
+    loops={
+        1: LoopSpec(target='pn', types={'pn': Str}, modifies=['property_list', 'property_dict'],
+                    invariant=[('every-name-of-PropertyList-seen-so-far-is-recorded',
+                                'forall(lambda k: PropertyList[k] in property_dict, 0, _i)')]),
+        2: LoopSpec(target='pn', types={'pn': Str, 'prop_inst': Ref('CIMProperty'), 'prop_cls': Ref('CIMProperty')}),
+        3: LoopSpec(target='pn', types={'pn': Str}, modifies=['$fields:CIMInstance.properties'],
+                    invariant=[('the-callers-instance-keeps-its-properties', 'ModifiedInstance.properties is g_req')]),
+        4: LoopSpec(target='pn', types={'pn': Str}, modifies=['$fields:CIMInstance.properties'],
+                    invariant=[('the-callers-instance-keeps-its-properties', 'ModifiedInstance.properties is g_req')]),
+        5: LoopSpec(target='pn', types={'pn': Str, 'inst_prop': Ref('CIMProperty'), 'cl_prop': Ref('CIMProperty')},
+                    modifies=['$fields:CIMProperty.name']),
+    },
+    ensures=[('the-provider-is-reached-only-for-an-existing-instance-of-an-existing-class-with-consistent-class-names',
+              f'self._g_provider_called and not old({INCONS}) and old({MCLS_OK}) and old({MINST_OK})'),
+             ('the-callers-instance-keeps-its-properties-dictionary', 'ModifiedInstance.properties is old(ModifiedInstance.properties)')],
+)
+D_CIMERROR = Raises(post=[
+    ('inconsistent-class-names-are-INVALID_PARAMETER', f'implies(old({INCONS}), exc.status_code == CIM_ERR_INVALID_PARAMETER)'),
+    ('a-missing-class-is-INVALID_CLASS-unless-the-namespace-is-missing',
+     f'implies(not old({INCONS}) and not old({MCLS_OK}), exc.status_code in (CIM_ERR_INVALID_NAMESPACE, CIM_ERR_INVALID_CLASS))'),
+    ('a-missing-instance-is-NOT_FOUND-unless-the-namespace-is-missing',
+     f'implies(not old({INCONS}) and old({MCLS_OK}) and not old({MINST_OK}), '
+     'exc.status_code in (CIM_ERR_INVALID_NAMESPACE, CIM_ERR_NOT_FOUND))'),
+    ('before-the-provider-is-reached-only-the-documented-status-codes',
+     f'implies({_NOT_REACHED}, exc.status_code in (CIM_ERR_INVALID_NAMESPACE, CIM_ERR_INVALID_CLASS, CIM_ERR_NOT_FOUND, '
+     'CIM_ERR_INVALID_PARAMETER))'),
+    ('INVALID_CLASS-only-for-a-missing-class',
+     f'implies({_NOT_REACHED} and exc.status_code == CIM_ERR_INVALID_CLASS, not old({MCLS_OK}))'),
+    ('NOT_FOUND-only-for-a-missing-instance',
+     f'implies({_NOT_REACHED} and exc.status_code == CIM_ERR_NOT_FOUND, old({MCLS_OK}) and not old({MINST_OK}))')])
+# LOADED: the shape PropertyList=None (every property of the request goes to the provider; the three loops that build /
+# apply the property list are not reached).  All status-code decisions lie before them and are the same for every PropertyList.
+CONTRACTS.append(Contract(
+    PD + 'ModifyInstance', label='PropertyList=None',
+    raises={'CIMError': D_CIMERROR},
+    notes='status codes decided before the provider is reached, the provider gets a private deep copy, the caller\'s instance '
+          'keeps its properties dictionary; SHAPE: PropertyList is None',
+    **dict(MODIFY_D, params=dict(MODIFY_D['params'], PropertyList=NoneT))))
+CONTRACTS[-1].home_class_specs = HOME_D
+# NOT LOADED - out of reach today (engine: `pn not in modified_instance` / `list(modified_instance)` on the deep copy are not
+# dispatched to CIMInstance.__contains__ / __iter__): the general case with the PropertyList decision as named preconditions
+# of CIMInstance.__setitem__ / __delitem__ (a property is dropped only when PropertyList is given and does not name it; a
+# class default is added only for a PropertyList name the request lacks; both only on the private copy).
+PENDING_ENGINE_CHANGE = [Contract(
+    PD + 'ModifyInstance',
+    raises={'CIMError': D_CIMERROR,
+            # known:modify-propertylist-absent-null-default-raises-ValueError (known_findings.json, bounded id): not documented;
+            # allowed here ONLY in that situation and before the provider is reached; the variant without it is below
+            'ValueError': Raises(post=[('only-the-known-finding-PropertyList-given-provider-not-reached',
+                                        f'PropertyList is not None and {_NOT_REACHED}')])},
+    notes='status codes, private copy for the provider, and the PropertyList decision at the two statements that change the '
+          'copy (named preconditions of CIMInstance.__setitem__ / __delitem__)',
+    **MODIFY_D)]
+PENDING_ENGINE_CHANGE[-1].home_class_specs = HOME_D
+REFUTED_ON_THE_UNCHANGED_TREE.append(Contract(
+    PD + 'ModifyInstance', label='only-CIMError-escapes', raises={'CIMError': D_CIMERROR},
+    notes='(needs the engine change named at PENDING_ENGINE_CHANGE to be examined deductively) without the allowance for '
+          'ValueError: `modified_instance[pn] = creation_class.properties[pn].value` builds CIMProperty(pn, None) for a '
+          'PropertyList name that ModifiedInstance lacks and whose class default is NULL -> ValueError (type cannot be inferred) '
+          'instead of a CIMError: known:modify-propertylist-absent-null-default-raises-ValueError (bounded stand-in)',
+    **MODIFY_D))
+REFUTED_ON_THE_UNCHANGED_TREE[-1].home_class_specs = HOME_D
